@@ -336,6 +336,14 @@ impl<'a> Walk<'a> {
             Expr::Float(_) => Some(Type::Float(Some(64), IsConst::True)),
             Expr::Bool(_) => Some(Type::Bool(IsConst::True)),
             Expr::Hw(_) => Some(Type::HardwareQubit),
+            // an element or slice of a declared register or variable that is not a duration, a
+            // comparison, a cast to another type: certainly not a duration
+            Expr::IndexedId(n, _) => match self.decl_type(self.lookup(n)) {
+                Some(Type::Duration(_)) | None => None,
+                Some(_) => Some(Type::Bit(IsConst::False)),
+            },
+            Expr::Bin(BinOp::Eq | BinOp::Neq, ..) => Some(Type::Bool(IsConst::False)),
+            Expr::Cast(t, _) if !matches!(t, Ty::Duration | Ty::Stretch) => Some(Type::Bool(IsConst::False)),
             _ => None,
         }
     }
